@@ -22,19 +22,21 @@ def _place_s(p):
 
 
 class VariantMay:
-    def __init__(self, f, adt, field_place_s):
+    def __init__(self, f, adt, field_place_s, more_fields=(), assume=None):
+        self.assume = assume or {}
         self.f = f
         self.adt = adt
         self.all = frozenset(v["name"] for v in f.crate.adts[adt]["variants"])
         self.names = {v["discr"]: v["name"] for v in f.crate.adts[adt]["variants"]}
         self.field = field_place_s
+        self.fields = [field_place_s] + list(more_fields)
         self.base_ty = None
         if field_place_s.startswith("(*_"):
             bl = int(field_place_s[3:field_place_s.index(")")])
             ty = f.locals[bl].get("ty", "")
             if ty.startswith("&mut "):
                 self.base_ty = ty
-        self.tracked = {field_place_s}
+        self.tracked = set(self.fields)
         for i, l in enumerate(f.locals):
             if l.get("ty") == adt:
                 self.tracked.add("_%d" % i)
@@ -120,7 +122,8 @@ class VariantMay:
             # the whole object (self) handed to a callee by unique reference: its field may change
             if self.base_ty and not p["proj"] and \
                     self.f.locals[p["local"]].get("ty") == self.base_ty:
-                st[self.field] = self.all
+                for fld in self.fields:
+                    st[fld] = self.all
         if dest in self.tracked:
             st[dest] = self.all
 
@@ -142,7 +145,7 @@ class VariantMay:
 
     def run(self):
         f = self.f
-        init = {s: self.all for s in self.tracked}
+        init = {s: frozenset(self.assume.get(s, self.all)) for s in self.tracked}
         self.state_in = {0: init}
         work = [0]
         it = 0
